@@ -111,6 +111,9 @@ pub fn make_bytes(d: &DataSpec) -> Bytes {
         19..=22 => 8190 + (d.len as usize % 5),     // around the 8 KiB copy buffer
         23..=24 => 16383 + (d.len as usize % 3),
         25 => 65536 + (d.len as usize % 4096),
+        // block boundaries of copy loops and buffers beyond the 8 KiB std::io::copy buffer
+        26 => [32768, 65535, 65536, 65537, 131071, 131072, 131073, 196608, 262144, 262145, 393216, 524288][d.len as usize % 12],
+        27 => 131072 + (d.len as usize % 70000),
         _ => 100 + (d.len as usize % 3000),
     };
     let mode = d.seed % 4;
@@ -536,8 +539,8 @@ pub fn make_prepop(raw: &[RawEntry], pool: &[String], depth: usize, nlayers: usi
                     d.seed = d.seed.wrapping_add(li as u8 + 1);
                     d.len = d.len.wrapping_add(li as u16);
                 }
-                // keep pre-populated files small
-                d.kind = 7 + d.kind % 12;
+                // keep most pre-populated files small, one in twelve gets a boundary / large size
+                d.kind = if d.seed % 12 == 5 { 19 + d.kind % 9 } else { 7 + d.kind % 12 };
                 Node::File(make_bytes(&d))
             };
             out.push((li, p.clone(), node));
